@@ -116,7 +116,13 @@ impl Future for StatusFuture {
       #[cfg(rxrust_verif)]
       crate::scheduler::verif_hook::yield_point("status:checked");
       self.0.waker.register(cx.waker());
-      Poll::Pending
+      // the source may have terminated between the check above and the
+      // registration: nobody would wake us, so look again
+      if self.0.is_closed() {
+        Poll::Ready(NormalReturn::new(()))
+      } else {
+        Poll::Pending
+      }
     }
   }
 }
